@@ -70,6 +70,12 @@ func containersRecord(m map[string]string) error {
 		// bias: probability of an insertion drifts so that some histories fill the
 		// buffer past one or two growths and others keep it nearly empty (wrap-around)
 		pIns := 0.35 + 0.4*rnd.Float64()
+		if id%10 == 1 || id%10 == 2 {
+			// long histories that keep hundreds of elements pending (many growths, whatever the growth
+			// policy) and then drain to empty, twice over
+			length, pIns = 1500+rnd.Intn(1500), 0.5
+		}
+		long := length >= 1500
 		if id%2 == 1 {
 			q := &container.Queue[int]{}
 			size := 0
@@ -79,6 +85,14 @@ func containersRecord(m map[string]string) error {
 			for k := 0; k < length; k++ {
 				ev := contEvent{Ev: "op", Kind: "q", ID: id, Res: -1}
 				r := rnd.Float64()
+				if long { // fill, drain, fill, drain
+					switch phase := (4 * k) / length; {
+					case phase%2 == 0:
+						pIns = 0.85
+					default:
+						pIns = 0.05
+					}
+				}
 				okCall := true
 				switch {
 				case size == 0 || r < pIns:
@@ -109,6 +123,10 @@ func containersRecord(m map[string]string) error {
 		} else {
 			s := &container.Stack[int]{}
 			size := 0
+			scratch := make([]int, 0, 8)
+			if long { // fill, drain, fill, drain (the phases are applied below through pIns)
+				pIns = 0.6
+			}
 			if err := w.Write(contEvent{Ev: "reset", Kind: "s", ID: id, Res: -1}); err != nil {
 				return err
 			}
@@ -123,7 +141,16 @@ func containersRecord(m map[string]string) error {
 					size++
 				case r < pIns:
 					ev.Op, ev.Arg, ev.Arg2 = "pushall", id*1000+k, -(id*1000 + k)
-					okCall = guarded(func() { s.PushAll(ev.Arg, ev.Arg2) })
+					if rnd.Intn(2) == 0 {
+						// the elements come from a slice the caller goes on using: what is on the stack
+						// are the elements, not the caller's storage
+						scratch = append(scratch[:0], ev.Arg, ev.Arg2)
+						okCall = guarded(func() { s.PushAll(scratch...) })
+						scratch[0], scratch[1] = 7, 7
+						scratch = append(scratch, 9, 9, 9)[:2]
+					} else {
+						okCall = guarded(func() { s.PushAll(ev.Arg, ev.Arg2) })
+					}
 					size += 2
 				case r < pIns+0.12:
 					ev.Op = "speek"
